@@ -20,6 +20,7 @@ thread_local! {
     static CRASH_POINT: RefCell<Option<Rc<CrashPointFn>>> = const { RefCell::new(None) };
     static SCHED_POINT: RefCell<Option<Rc<SchedPointFn>>> = const { RefCell::new(None) };
     static WAL_ROTATION_ENTRIES: RefCell<Option<u64>> = const { RefCell::new(None) };
+    static TIMESTAMP_SECS: RefCell<Option<u64>> = const { RefCell::new(None) };
 }
 
 /// Install (or clear) the crash-point callback of the current thread.
@@ -56,4 +57,14 @@ pub fn set_wal_rotation_entries(n: Option<u64>) {
 /// Rotation threshold override, if any.
 pub fn wal_rotation_override() -> Option<u64> {
     WAL_ROTATION_ENTRIES.with(|c| *c.borrow())
+}
+
+/// Override the wall-clock seconds used for persistent-state file names and record timestamps (current thread).
+pub fn set_timestamp_override(secs: Option<u64>) {
+    TIMESTAMP_SECS.with(|c| *c.borrow_mut() = secs);
+}
+
+/// Timestamp override, if any.
+pub fn timestamp_override() -> Option<u64> {
+    TIMESTAMP_SECS.with(|c| *c.borrow())
 }
